@@ -20,7 +20,7 @@ def main():
     ap.add_argument("--runs", type=int)
     ap.add_argument("--budget", type=float)
     ap.add_argument("--workers", type=int)
-    ap.add_argument("--selftest", choices=["determinism"])
+    ap.add_argument("--selftest", choices=["determinism", "batch"])
     args = ap.parse_args()
 
     seams.install_repo_path()
@@ -46,6 +46,10 @@ def main():
         from dst import selftest
 
         return selftest.determinism(pid, args.tier, master, args.runs or 40)
+    if args.selftest == "batch":
+        from dst import selftest
+
+        return selftest.batch(pid, args.tier, master, args.runs or 200)
     return driver.run_batch(pid, args.tier, master, budget_s=args.budget,
                             max_runs=args.runs, workers=args.workers)
 
